@@ -49,7 +49,7 @@ ASSUMPTIONS = [
     "which simulation does not decide",
     "the 'fresh generator' reference uses the same generator code under test (it is the definition of the input)",
 ]
-PROBES = ["history_with_abandoned_pass", "history_with_probe", "from_random_parallel", "window_with_pole", "size_multiple_of_chunk", "tail_chunk"]
+PROBES = ["cross_process_reproducibility", "history_with_abandoned_pass", "history_with_probe", "from_random_parallel", "window_with_pole", "size_multiple_of_chunk", "tail_chunk"]
 REAL_VS_STUB = dict(
     real="yaw.randoms, RandomReader, Catalog.from_random and the whole creation pipeline, numpy Generator",
     stub="multiprocessing (sim.fakemp) for workers > 1; treecorr RNG/threads for patch_num",
@@ -81,6 +81,9 @@ def gen_cases(tier: str, verif_seed: int, runs: int | None = None) -> list[dict]
                 nattr=prng.randint(1, 40),
                 max_examples=40 if tier == "quick" else 80,
                 steps=8,
+                # reproducibility by seed across interpreter processes (two fresh interpreters with
+                # different PYTHONHASHSEED); expensive, so only a few cases carry it
+                cross_process=(i % 8 == 0),
             )
         )
     return cases
@@ -407,6 +410,48 @@ def _machine_factory(case: dict, root: str, rec: Recorder):
     return Machine
 
 
+_CROSS_PROCESS_PROGRAM = """
+import hashlib, json, sys, warnings
+warnings.filterwarnings("ignore")
+sys.path.insert(0, {verif!r})
+from checks import c16
+case = json.loads({case!r})
+gen = c16._make_generator(case)
+a = gen(57)
+b = c16._fresh_records(case, 41, 16)
+h = hashlib.sha256()
+for arr in (a, b):
+    for name in arr.dtype.names:
+        h.update(arr[name].tobytes())
+print("DIGEST", h.hexdigest())
+"""
+
+
+def _cross_process_problem(case: dict) -> str | None:
+    """The same seed must give the same points in every interpreter process."""
+    import json
+    import subprocess
+    import sys
+
+    verif = os.path.dirname(os.path.dirname(os.path.abspath(__file__)))
+    prog = _CROSS_PROCESS_PROGRAM.format(verif=verif, case=json.dumps({k: v for k, v in case.items() if k != "history"}))
+    procs = []
+    for hs in ("1", "2"):
+        env = dict(os.environ, PYTHONHASHSEED=hs)
+        env.pop("LD_PRELOAD", None)
+        procs.append(subprocess.Popen([sys.executable, "-c", prog], env=env, stdout=subprocess.PIPE, stderr=subprocess.DEVNULL))
+    digests = []
+    for p in procs:
+        out, _ = p.communicate(timeout=300)
+        line = [ln for ln in out.decode().splitlines() if ln.startswith("DIGEST ")]
+        digests.append(line[-1].split()[1] if line else f"no output (exit {p.returncode})")
+    if any(d.startswith("no output") for d in digests):
+        raise RuntimeError(f"cross-process probe failed: {digests}")
+    if digests[0] != digests[1]:
+        return f"BoxRandoms(seed={case['gen_seed']}) yields different points in two interpreter processes (PYTHONHASHSEED 1 vs 2): {digests}"
+    return None
+
+
 def _uniformity_problem(case: dict) -> str | None:
     """Fixed-seed chi-square over equal-area cells (side oracle)."""
     from scipy import stats
@@ -446,6 +491,14 @@ def run_case(case: dict) -> dict:
                 violation = (list(model.ops), err)
             rec.finish_example(model.ops)
         else:
+            if case.get("cross_process"):
+                rec.probe("cross_process_reproducibility")
+                msg = _cross_process_problem(case)
+                if msg:
+                    return dict(
+                        verdict="violation", signature=dict(property=PROP, failing_rule="cross_process", outcome="not_reproducible"),
+                        detail=msg, digest="-", runs=1,
+                    )
             msg = _uniformity_problem(case)
             if msg:
                 return dict(
